@@ -1,15 +1,19 @@
 (* C13 -- Monetary policy bounds: inflation, UBI and supply caps are never exceeded.
    Only statements, each closed by [exact] of a lemma from Proofs/Monetary.v, and its assumptions.
-   The model (Model/Monetary.v) is tied to /repo by the differential run of checks/c13.py; the
-   mint/burn call-site table (Gen/MintBurn.v) is regenerated from the source tree on every run. *)
+   The model (Model/Monetary.v) is tied to /repo by the differential run of checks/c13.py.  Two things
+   are regenerated from the source tree on every run (Gen/MintBurn.v): the table of MintCoins/BurnCoins
+   call sites, and [tree_config]: the shapes of five guards (cap guard of the tokens msg server, UBI
+   hard-cap arithmetic, UBI payout amount, UBI due test, MintIssueTx bond-denom refusal).  A statement
+   that depends on a guard is a Prop over the configuration; it is proved for the repaired shape,
+   refuted for the shape first found, and stated for [tree_config] itself. *)
 From Sekai Require Import Base.Prelude Base.Dec Model.Monetary Model.C13Check Gen.MintBurn Proofs.Monetary.
 
-(* ------------------------------------------------------------------ block inflation *)
+(* ================================================================== block inflation *)
 (* Inflation never lifts supply above the period snapshot grown pro rata at the configured rate:
    after the allocation of a block, supply <= max(supply before, snapshot + ceil(snapshot * rate * dt / period)),
-   for every state, time step and parameter setting (rate >= 0, period > 0 as validated by x/gov). *)
-Theorem C13_inflation_le_target : forall s dt s1 s2 s3 a,
-  block_parts s dt = Ok (s1, s2, s3) ->
+   for every state, time step, parameter setting (rate >= 0, period > 0 as validated by x/gov) and guard shape. *)
+Theorem C13_inflation_le_target : forall cf s dt s1 s2 s3 a,
+  block_parts cf s dt = Ok (s1, s2, s3) ->
   sn_amt (s_psnap s) = Some a -> 0 <= a -> 0 <= p_rate (s_params s) ->
   sn_time (s_psnap s) <= s_now s + dt -> 0 < as_int64 (p_period (s_params s)) ->
   nat_supply s1 <= Z.max (nat_supply s)
@@ -38,187 +42,212 @@ Qed.
 Print Assumptions C13_inflation_le_floor_target_refuted.
 
 (* all new native tokens of a block are inflation (first) and UBI (second) *)
-Theorem C13_block_supply_decomposition : forall s dt s1 s2 s3, block_parts s dt = Ok (s1, s2, s3) ->
+Theorem C13_block_supply_decomposition : forall cf s dt s1 s2 s3, block_parts cf s dt = Ok (s1, s2, s3) ->
   nat_supply s <= nat_supply s1 /\ nat_supply s1 <= nat_supply s2 /\ nat_supply s3 = nat_supply s2.
 Proof. exact block_supply_decomposition. Qed.
 Print Assumptions C13_block_supply_decomposition.
 
-(* ------------------------------------------------------------------ annual gate *)
+(* ================================================================== annual gate *)
 (* No inflationary minting (block inflation or UBI) happens in a block that starts once supply has
    grown over the year-start snapshot by the annual maximum pro-rated by the month index
    (spec_gate_closed: growth >= maxann * months / 12 + 2e-18, the slack of the decimal arithmetic). *)
-Theorem C13_no_mint_after_annual_max : forall s dt s1 s2 s3,
+Theorem C13_no_mint_after_annual_max : forall cf s dt s1 s2 s3,
   0 <= p_maxann (s_params s) ->
   spec_gate_closed (s_ysnap s) (p_maxann (s_params s)) (nat_supply s) (s_now s + dt) = true ->
-  block_parts s dt = Ok (s1, s2, s3) ->
+  block_parts cf s dt = Ok (s1, s2, s3) ->
   nat_supply s1 = nat_supply s /\ nat_supply s2 = nat_supply s /\ nat_supply s3 = nat_supply s.
 Proof. exact no_mint_after_annual_max_lemma. Qed.
 Print Assumptions C13_no_mint_after_annual_max.
 
-(* ------------------------------------------------------------------ UBI hard cap *)
-(* A UBI record is accepted only if the yearly total of all records stays within the hard cap --
-   provided the uint64 arithmetic of the check does not wrap. *)
-Theorem C13_ubi_within_hardcap : forall s name amount period start end_ pool s',
-  no_u64_overflow (s_ubis s) amount period ->
-  ubi_upsert s name amount period start end_ pool = Ok s' ->
+(* ================================================================== UBI *)
+(* A UBI record is accepted only if the yearly total of all records stays within the hard cap. *)
+Theorem C13_ubi_within_hardcap_on_this_tree :
+  if cf_ubi_exact tree_config then ubi_hardcap_statement tree_config else ~ ubi_hardcap_statement tree_config.
+Proof. exact (ubi_hardcap_decided tree_config). Qed.
+Print Assumptions C13_ubi_within_hardcap_on_this_tree.
+
+(* repaired handler (sdk.Int arithmetic, zero period refused; fixes/C13-ubi-hardcap-exact.patch): full strength *)
+Theorem C13_ubi_within_hardcap_exact : forall cf s name amount period start end_ pool s',
+  cf_ubi_exact cf = true -> Forall ubi_dom (s_ubis s) ->
+  ubi_upsert cf s name amount period start end_ pool = Ok s' ->
+  spec_ubi_yearly (s_ubis s') <= p_hardcap (s_params s') /\ p_hardcap (s_params s') = p_hardcap (s_params s) /\ period <> 0.
+Proof. exact ubi_within_hardcap_exact_lemma. Qed.
+Print Assumptions C13_ubi_within_hardcap_exact.
+
+(* uint64 handler: holds as long as the uint64 arithmetic does not wrap ... *)
+Theorem C13_ubi_within_hardcap_u64 : forall cf s name amount period start end_ pool s',
+  cf_ubi_exact cf = false -> no_u64_overflow (s_ubis s) amount period ->
+  ubi_upsert cf s name amount period start end_ pool = Ok s' ->
   spec_ubi_yearly (s_ubis s') <= p_hardcap (s_params s') /\ p_hardcap (s_params s') = p_hardcap (s_params s).
 Proof. exact ubi_within_hardcap_lemma. Qed.
-Print Assumptions C13_ubi_within_hardcap.
+Print Assumptions C13_ubi_within_hardcap_u64.
 
-(* the unguarded statement is false: amount * 31556952 wraps in uint64 (witness replayed by the harness) *)
-Definition ubi_within_hardcap_statement : Prop := forall s name amount period start end_ pool s',
-  0 <= amount < two64 -> 0 < period < two64 ->
-  ubi_upsert s name amount period start end_ pool = Ok s' ->
-  spec_ubi_yearly (s_ubis s') <= p_hardcap (s_params s').
-Theorem C13_ubi_overflow_refuted : ~ ubi_within_hardcap_statement.
-Proof.
-  intros H. destruct ubi_overflow_refuted_lemma as (s & name & amount & period & start & end_ & pool & s' & H1 & H2 & H3 & H4).
-  specialize (H s name amount period start end_ pool s' H1 H2 H3). lia.
-Qed.
+(* ... and is false otherwise: amount * 31556952 wraps (witness replayed on the real handler by the harness) *)
+Theorem C13_ubi_overflow_refuted : forall cf, cf_ubi_exact cf = false -> ~ ubi_hardcap_statement cf.
+Proof. intros cf E. pose proof (ubi_hardcap_decided cf) as H. rewrite E in H. exact H. Qed.
 Print Assumptions C13_ubi_overflow_refuted.
 
-(* and the due test DistributionLast + Period wraps as well: a record whose period has not elapsed is due *)
-Theorem C13_ubi_period_wrap_refuted : exists u now, 0 <= u_last u < two64 /\ 0 <= u_period u < two64 /\
-  u_last u <= now < u_last u + u_period u /\ ubi_due now u = true.
-Proof. exact ubi_period_wrap_due. Qed.
+(* the end blocker pays a record only when its period has elapsed since the last payout *)
+Theorem C13_ubi_due_only_after_period_on_this_tree :
+  if cf_ubi_due_exact tree_config then ubi_due_statement tree_config else ~ ubi_due_statement tree_config.
+Proof. exact (ubi_due_decided tree_config). Qed.
+Print Assumptions C13_ubi_due_only_after_period_on_this_tree.
+
+Theorem C13_ubi_period_wrap_refuted : forall cf, cf_ubi_due_exact cf = false -> ~ ubi_due_statement cf.
+Proof. intros cf E. pose proof (ubi_due_decided cf) as H. rewrite E in H. exact H. Qed.
 Print Assumptions C13_ubi_period_wrap_refuted.
 
-(* ------------------------------------------------------------------ token registry *)
-(* A token's recorded supply grows by exactly what is minted through the registry: over every
-   history, recorded supply minus bank supply of a registered token never changes. *)
-Theorem C13_registry_supply_tracks_mints : forall strict ops s d, aget d (s_reg s) <> None ->
-  offset (run strict s ops) d = offset s d /\ aget d (s_reg (run strict s ops)) <> None.
+Theorem C13_ubi_due_exact : forall cf, cf_ubi_due_exact cf = true -> ubi_due_statement cf.
+Proof. intros cf E. pose proof (ubi_due_decided cf) as H. rewrite E in H. exact H. Qed.
+Print Assumptions C13_ubi_due_exact.
+
+(* UBI mints in one block at most the amount of every record whose period has elapsed (records
+   within the uint64 domain; amount and due test exact by repair, or because the records are small) *)
+Theorem C13_ubi_payout_bound : forall cf s dt s1 s2 s3, block_parts cf s dt = Ok (s1, s2, s3) ->
+  pools_nonneg s -> Forall (ubi_pay_ok cf) (s_ubis s) ->
+  0 <= nat_supply s2 - nat_supply s1 <= spec_ubi_due_total (s_now s + dt) (s_ubis s) /\ pools_nonneg s3.
+Proof. exact block_ubi_payout_lemma. Qed.
+Print Assumptions C13_ubi_payout_bound.
+
+(* a state already over the hard cap (the genesis state: 6,087,375 per year against the default cap
+   6,000,000) is not an acceptance; there the exact handler accepts nothing more *)
+Theorem C13_ubi_over_cap_rejects : forall cf s name amount period start end_ pool s',
+  cf_ubi_exact cf = true -> Forall ubi_dom (s_ubis s) -> 0 <= amount -> 0 <= period ->
+  p_hardcap (s_params s) < spec_ubi_yearly (s_ubis s) ->
+  ubi_upsert cf s name amount period start end_ pool <> Ok s'.
+Proof. exact ubi_over_cap_rejects_lemma. Qed.
+Print Assumptions C13_ubi_over_cap_rejects.
+
+(* ================================================================== token registry *)
+(* A token's recorded supply grows by exactly what is minted through the registry (and shrinks by
+   exactly what is burnt through it): over every history, recorded supply minus bank supply of a
+   registered token never changes. *)
+Theorem C13_registry_supply_tracks_mints : forall cf ops s d, aget d (s_reg s) <> None ->
+  offset (run cf s ops) d = offset s d /\ aget d (s_reg (run cf s ops)) <> None.
 Proof. exact run_offset. Qed.
 Print Assumptions C13_registry_supply_tracks_mints.
 
 (* ... it never exceeds the supply cap, over every history of operations *)
-Theorem C13_supply_le_cap : forall strict ops s, cap_ok (s_reg s) -> cap_ok (s_reg (run strict s ops)).
+Theorem C13_supply_le_cap : forall cf ops s, cap_ok (s_reg s) -> cap_ok (s_reg (run cf s ops)).
 Proof. exact run_cap_ok. Qed.
 Print Assumptions C13_supply_le_cap.
 
-(* ... and an owner can never raise or remove the cap.  [strict] is the shape of the msg server's cap
-   guard, read from the source tree on every run (Gen/MintBurn.v cap_guard_strict).
-   FALSE as stated for the guard found in the tree (strict = false): *)
-Definition owner_cannot_raise_or_remove_cap_statement (strict : bool) : Prop :=
-  forall s actor perm d supply cap owner noedit fee sc s' t,
-  upsert_msg strict s actor perm d supply cap owner noedit fee sc = Ok s' -> aget d (s_reg s) = Some t -> 0 < t_cap t ->
-  exists t', aget d (s_reg s') = Some t' /\ 0 < t_cap t' <= t_cap t.
-Theorem C13_owner_cannot_raise_or_remove_cap_refuted : ~ owner_cannot_raise_or_remove_cap_statement false.
-Proof. exact owner_cap_statement_refuted. Qed.
-Print Assumptions C13_owner_cannot_raise_or_remove_cap_refuted.
+(* ... and an owner can never raise or remove that cap: HEADLINE, at full strength, for the guard this
+   tree has (the proof script needs cf_cap_strict tree_config = true; on a tree with the old guard it
+   fails, and the harness replays the negative-cap witness on the real msg server). *)
+Theorem C13_owner_cannot_raise_or_remove_cap : owner_cap_statement tree_config.
+Proof. exact (owner_cap_strict_lemma tree_config eq_refl). Qed.
+Print Assumptions C13_owner_cannot_raise_or_remove_cap.
 
-(* the witness in full: the owner sets cap -1, then mints past the old cap *)
-Theorem C13_negative_cap_disables_cap : exists s actor d cap s1 s2 t,
-  aget d (s_reg s) = Some t /\ 0 < t_cap t /\ t_owner t = actor /\
-  upsert_msg false s actor false d 0 cap actor false PREC 0 = Ok s1 /\
-  (exists t1, aget d (s_reg s1) = Some t1 /\ t_cap t1 < 0) /\
-  mint_issue s1 actor d 5000 = Ok s2 /\
-  (exists t2, aget d (s_reg s2) = Some t2 /\ t_cap t < t_supply t2).
-Proof. exact owner_cap_refuted_lemma. Qed.
-Print Assumptions C13_negative_cap_disables_cap.
+(* over every history of ALL operations on this tree a positive cap only goes down and stays positive,
+   so the recorded supply stays within the cap the token started with *)
+Theorem C13_cap_only_decreases_over_all_histories : forall ops s d t,
+  aget d (s_reg s) = Some t -> 0 < t_cap t ->
+  exists t', aget d (s_reg (run tree_config s ops)) = Some t' /\ 0 < t_cap t' <= t_cap t.
+Proof. exact (run_cap_monotone_strict tree_config eq_refl). Qed.
+Print Assumptions C13_cap_only_decreases_over_all_histories.
 
-(* what does hold: only the owner edits, the cap never goes up and never becomes zero *)
-Theorem C13_owner_cap_partial : forall strict s actor perm d supply cap owner noedit fee sc s' t,
-  upsert_msg strict s actor perm d supply cap owner noedit fee sc = Ok s' -> aget d (s_reg s) = Some t -> 0 < t_cap t ->
+(* any guard shape: only the owner edits, the cap never goes up and never becomes zero *)
+Theorem C13_owner_cap_partial : forall cf s actor perm d supply cap owner noedit fee sc s' t,
+  upsert_msg cf s actor perm d supply cap owner noedit fee sc = Ok s' -> aget d (s_reg s) = Some t -> 0 < t_cap t ->
   actor = t_owner t /\ exists t', aget d (s_reg s') = Some t' /\ t_cap t' = cap /\ cap <= t_cap t /\ cap <> 0
                                  /\ t_supply t' = t_supply t.
 Proof. exact owner_cap_partial_lemma. Qed.
 Print Assumptions C13_owner_cap_partial.
 
-(* guarded by "no negative cap in a message" the statement holds over whole histories of ALL operations,
-   and the recorded supply stays within the cap the token started with *)
-Theorem C13_cap_only_decreases_over_histories : forall strict ops s d t, Forall nonneg_cap_op ops ->
-  aget d (s_reg s) = Some t -> 0 < t_cap t ->
-  exists t', aget d (s_reg (run strict s ops)) = Some t' /\ 0 < t_cap t' <= t_cap t.
-Proof. exact run_cap_monotone. Qed.
-Print Assumptions C13_cap_only_decreases_over_histories.
+(* kept for the guard as first found (msg.SupplyCap.IsZero()): the statement is false, a negative cap
+   passes both guards and the old cap is then exceeded (repaired in /repo by 1760056) *)
+Theorem C13_owner_cannot_raise_or_remove_cap_refuted_for_old_guard : forall cf, cf_cap_strict cf = false -> ~ owner_cap_statement cf.
+Proof. exact owner_cap_statement_refuted. Qed.
+Print Assumptions C13_owner_cannot_raise_or_remove_cap_refuted_for_old_guard.
 
-Theorem C13_supply_le_initial_cap_over_histories : forall strict ops s d t, Forall nonneg_cap_op ops -> cap_ok (s_reg s) ->
-  aget d (s_reg s) = Some t -> 0 < t_cap t -> reg_supply (run strict s ops) d <= t_cap t.
+Theorem C13_negative_cap_disables_cap_for_old_guard : forall cf, cf_cap_strict cf = false ->
+  exists s actor d cap s1 s2 t,
+  aget d (s_reg s) = Some t /\ 0 < t_cap t /\ t_owner t = actor /\
+  upsert_msg cf s actor false d 0 cap actor false PREC 0 = Ok s1 /\
+  (exists t1, aget d (s_reg s1) = Some t1 /\ t_cap t1 < 0) /\
+  mint_issue cf s1 actor d 5000 = Ok s2 /\
+  (exists t2, aget d (s_reg s2) = Some t2 /\ t_cap t < t_supply t2).
+Proof. exact owner_cap_refuted_lemma. Qed.
+Print Assumptions C13_negative_cap_disables_cap_for_old_guard.
+
+Theorem C13_cap_only_decreases_over_histories_without_negative_caps : forall cf ops s d t, Forall nonneg_cap_op ops ->
+  aget d (s_reg s) = Some t -> 0 < t_cap t ->
+  exists t', aget d (s_reg (run cf s ops)) = Some t' /\ 0 < t_cap t' <= t_cap t.
+Proof. exact run_cap_monotone. Qed.
+Print Assumptions C13_cap_only_decreases_over_histories_without_negative_caps.
+
+Theorem C13_supply_le_initial_cap_over_histories : forall cf ops s d t, Forall nonneg_cap_op ops -> cap_ok (s_reg s) ->
+  aget d (s_reg s) = Some t -> 0 < t_cap t -> reg_supply (run cf s ops) d <= t_cap t.
 Proof. exact run_supply_le_initial_cap. Qed.
 Print Assumptions C13_supply_le_initial_cap_over_histories.
 
-(* once the guard refuses every non-positive cap (strict = true: the candidate fix
-   fixes/C13-negative-supply-cap.patch) the statement holds at full strength, for every message and
-   over every history of all operations *)
-Theorem C13_owner_cannot_raise_or_remove_cap_with_strict_guard : owner_cannot_raise_or_remove_cap_statement true.
-Proof. exact owner_cap_strict_lemma. Qed.
-Print Assumptions C13_owner_cannot_raise_or_remove_cap_with_strict_guard.
+(* ================================================================== origin of native tokens *)
+(* New native tokens are created only by block inflation and UBI payouts. *)
+Theorem C13_native_minted_only_by_inflation_or_ubi_on_this_tree :
+  if cf_mint_native_refused tree_config then native_origin_statement tree_config else ~ native_origin_statement tree_config.
+Proof. exact (native_origin_decided tree_config). Qed.
+Print Assumptions C13_native_minted_only_by_inflation_or_ubi_on_this_tree.
 
-Theorem C13_cap_only_decreases_over_all_histories_with_strict_guard : forall ops s d t,
-  aget d (s_reg s) = Some t -> 0 < t_cap t ->
-  exists t', aget d (s_reg (run true s ops)) = Some t' /\ 0 < t_cap t' <= t_cap t.
-Proof. exact run_cap_monotone_strict. Qed.
-Print Assumptions C13_cap_only_decreases_over_all_histories_with_strict_guard.
-
-(* the tree being checked: refuted while the guard is the one found today, proved once it is strict *)
-Theorem C13_owner_cap_on_this_tree :
-  if cap_guard_strict then owner_cannot_raise_or_remove_cap_statement true
-  else ~ owner_cannot_raise_or_remove_cap_statement false.
-Proof. exact owner_cap_on_this_tree_lemma. Qed.
-Print Assumptions C13_owner_cap_on_this_tree.
-
-(* ------------------------------------------------------------------ origin of native tokens *)
-(* New native tokens are created only by block inflation and UBI payouts.  FALSE as stated: *)
-Definition native_minted_only_by_inflation_or_ubi_statement (strict : bool) : Prop :=
-  forall s o s', step strict s o = Ok s' -> nat_supply s < nat_supply s' -> exists dt, o = OBlock dt.
-Theorem C13_native_minted_only_by_inflation_or_ubi_refuted : forall strict, ~ native_minted_only_by_inflation_or_ubi_statement strict.
-Proof.
-  intros strict H. destruct (native_mint_refuted_lemma strict) as (s & actor & amt & s' & H1 & H2 & H3).
-  destruct (H _ _ _ H1 ltac:(lia)) as (dt & E). discriminate E.
-Qed.
+(* refuted while layer2 MintIssueTx accepts the bond denom ... *)
+Theorem C13_native_minted_only_by_inflation_or_ubi_refuted : forall cf, cf_mint_native_refused cf = false -> ~ native_origin_statement cf.
+Proof. intros cf E. pose proof (native_origin_decided cf) as H. rewrite E in H. exact H. Qed.
 Print Assumptions C13_native_minted_only_by_inflation_or_ubi_refuted.
 
-(* what does hold: a block, or the layer2 mint message naming the native denomination -- nothing else *)
-Theorem C13_native_minted_only_by_inflation_ubi_or_mintissue : forall strict s o s',
-  step strict s o = Ok s' -> nat_supply s < nat_supply s' ->
+(* ... full strength once it refuses it (fixes/C13-mintissue-bond-denom.patch) *)
+Theorem C13_native_minted_only_by_inflation_or_ubi_with_refusal : forall cf, cf_mint_native_refused cf = true -> native_origin_statement cf.
+Proof. exact native_only_blocks_lemma. Qed.
+Print Assumptions C13_native_minted_only_by_inflation_or_ubi_with_refusal.
+
+(* any guard shape: a block, or the layer2 mint message naming the native denomination -- nothing else *)
+Theorem C13_native_minted_only_by_inflation_ubi_or_mintissue : forall cf s o s',
+  step cf s o = Ok s' -> nat_supply s < nat_supply s' ->
   (exists dt, o = OBlock dt) \/ (exists actor amt, o = OMintIssue actor native amt).
 Proof. exact step_native_sources. Qed.
 Print Assumptions C13_native_minted_only_by_inflation_ubi_or_mintissue.
 
 (* the same at the level of the source tree: every MintCoins/BurnCoins call site is in the reviewed
-   table, every mint goes through the registry, and the sites that can reach the native token are
-   exactly AllocateTokens, ProcessUBIRecord and (the finding) layer2 MintIssueTx *)
+   table, every mint goes through the registry, the sites that can reach the native token are exactly
+   AllocateTokens, ProcessUBIRecord and layer2 MintIssueTx, and the burns that bypass the registry
+   are exactly the two multistaking share-token burns *)
 Theorem C13_mint_sites_sanctioned :
   mint_burn_gen_errors = [] /\ sites_classified = true /\ mints_through_registry = true /\
   native_mint_sites = [("x/distributor/keeper", "Keeper.AllocateTokens"); ("x/layer2/keeper", "msgServer.MintIssueTx");
-                       ("x/ubi/keeper", "Keeper.ProcessUBIRecord")]%string.
+                       ("x/ubi/keeper", "Keeper.ProcessUBIRecord")]%string /\
+  burns_bypassing_registry = [("x/multistaking/keeper", "Keeper.SlashStakingPool"); ("x/multistaking/keeper", "Keeper.Undelegate")]%string.
 Proof. exact mint_sites_sanctioned_lemma. Qed.
 Print Assumptions C13_mint_sites_sanctioned.
 
-(* ------------------------------------------------------------------ non-vacuity *)
-(* a block that mints inflation up to the target, from a state satisfying the hypotheses of
-   C13_inflation_le_target; the gate of C13_no_mint_after_annual_max closed on a concrete state;
-   a UBI record accepted under no_u64_overflow; a capped token minted up to its cap over a history *)
-Example C13_nonvacuous_inflation : exists s dt s1 s2 s3 a,
-  block_parts s dt = Ok (s1, s2, s3) /\ sn_amt (s_psnap s) = Some a /\ 0 <= a /\ 0 <= p_rate (s_params s)
-  /\ sn_time (s_psnap s) <= s_now s + dt /\ 0 < as_int64 (p_period (s_params s)) /\ nat_supply s < nat_supply s1.
-Proof. exact nonvacuous_inflation. Qed.
-Example C13_nonvacuous_gate : exists s dt s1 s2 s3,
-  0 <= p_maxann (s_params s) /\ spec_gate_closed (s_ysnap s) (p_maxann (s_params s)) (nat_supply s) (s_now s + dt) = true
-  /\ block_parts s dt = Ok (s1, s2, s3) /\ s_ubis s <> [].
-Proof. exact nonvacuous_gate. Qed.
-Example C13_nonvacuous_ubi : exists s name amount period start end_ pool s',
-  no_u64_overflow (s_ubis s) amount period /\ ubi_upsert s name amount period start end_ pool = Ok s' /\ s_ubis s <> [] /\ 0 < amount.
-Proof. exact nonvacuous_ubi. Qed.
-Example C13_nonvacuous_registry : forall strict, exists s ops d t,
-  Forall nonneg_cap_op ops /\ cap_ok (s_reg s) /\ aget d (s_reg s) = Some t /\ 0 < t_cap t
-  /\ reg_supply s d < reg_supply (run strict s ops) d /\ 500 < reg_supply (run strict s ops) d.
-Proof. exact nonvacuous_registry. Qed.
-
-(* ------------------------------------------------------------------ the spec checker and the model *)
-(* The inflation clauses of the decidable checker that is run on the REAL observations
-   (Model/C13Check.v chk_infl_target, chk_annual_gate, chk_origin) accept every block / operation
-   of the model: passing the checker is what the theorems above predict. *)
-Theorem C13_chk_sound_block : forall s dt s1 s2 s3, valid_monetary s dt ->
-  block_parts s dt = Ok (s1, s2, s3) ->
+(* ================================================================== the spec checker and the model *)
+(* The decidable checker that is run on the REAL observations (Model/C13Check.v check_step) accepts
+   every run of the model from a well-formed state, for the repaired guard shapes: no clause fires
+   on any history.  This is what connects "the real trace passes the checker" to the theorems. *)
+Theorem C13_chk_sound_block : forall cf s dt s1 s2 s3, valid_monetary s dt ->
+  block_parts cf s dt = Ok (s1, s2, s3) ->
   chk_infl_target (nat_supply s) (s_psnap s) (s_params s) (s_now s + dt) (nat_supply s1) = true /\
   chk_annual_gate (nat_supply s) (s_ysnap s) (s_params s) (s_now s + dt) (nat_supply s2) = true.
 Proof. exact c13_chk_sound_block_lemma. Qed.
 Print Assumptions C13_chk_sound_block.
 
-Theorem C13_chk_sound_origin : forall strict s o,
+Theorem C13_chk_sound_origin : forall cf s o,
   is_block o = false -> mints_native_by_message o = false ->
-  chk_origin (nat_supply s) (nat_supply (step_total strict s o)) = true.
+  chk_origin (nat_supply s) (nat_supply (step_total cf s o)) = true.
 Proof. exact c13_chk_sound_origin_lemma. Qed.
 Print Assumptions C13_chk_sound_origin.
+
+(* ================================================================== non-vacuity *)
+Example C13_nonvacuous_inflation : forall cf, exists s dt s1 s2 s3 a,
+  block_parts cf s dt = Ok (s1, s2, s3) /\ sn_amt (s_psnap s) = Some a /\ 0 <= a /\ 0 <= p_rate (s_params s)
+  /\ sn_time (s_psnap s) <= s_now s + dt /\ 0 < as_int64 (p_period (s_params s)) /\ nat_supply s < nat_supply s1.
+Proof. exact nonvacuous_inflation. Qed.
+Example C13_nonvacuous_gate : forall cf, exists s dt s1 s2 s3,
+  0 <= p_maxann (s_params s) /\ spec_gate_closed (s_ysnap s) (p_maxann (s_params s)) (nat_supply s) (s_now s + dt) = true
+  /\ block_parts cf s dt = Ok (s1, s2, s3) /\ s_ubis s <> [].
+Proof. exact nonvacuous_gate. Qed.
+Example C13_nonvacuous_ubi : forall cf, exists s name amount period start end_ pool s',
+  no_u64_overflow (s_ubis s) amount period /\ ubi_upsert cf s name amount period start end_ pool = Ok s' /\ s_ubis s <> [] /\ 0 < amount.
+Proof. exact nonvacuous_ubi. Qed.
+Example C13_nonvacuous_registry : forall cf, exists s ops d t,
+  Forall nonneg_cap_op ops /\ cap_ok (s_reg s) /\ aget d (s_reg s) = Some t /\ 0 < t_cap t
+  /\ reg_supply s d < reg_supply (run cf s ops) d /\ 500 < reg_supply (run cf s ops) d.
+Proof. exact nonvacuous_registry. Qed.
